@@ -20,14 +20,16 @@ FUNC_CHECKS = {
     ("continuum.py", "get_best_soft_alignment"): ["C11", "C08"],
     ("continuum.py", "get_first_window"): ["C10"],
     ("continuum.py", "get_fast_alignment"): ["C10", "C03"],
-    ("continuum.py", "measure_best_window_size"): ["C10", "C14"],
+    ("continuum.py", "measure_best_window_size"): ["C10", "C14"], ("continuum.py", "f"): ["C10", "C05"],
+    ("continuum.py", "avg_num_annotations_per_annotator"): ["C03", "C19"], ("continuum.py", "avg_length_unit"): ["C16", "C19"],
+    ("continuum.py", "category_weights"): ["C19", "C15"], ("continuum.py", "bounds"): ["C13", "C16"],
     ("continuum.py", "compute_gamma"): ["C05", "C06"],
     ("continuum.py", "gamma"): ["C05"], ("continuum.py", "expected_disorder"): ["C05"], ("continuum.py", "gamma_cat"): ["C12"], ("continuum.py", "gamma_k"): ["C12"],
     ("continuum.py", "from_csv"): ["C18"], ("continuum.py", "to_csv"): ["C18"], ("continuum.py", "add_textgrid"): ["C18"], ("continuum.py", "add_elan"): ["C18"],
     ("continuum.py", "from_rttm"): ["C18"], ("continuum.py", "add_annotation"): ["C18", "C13"],
     ("continuum.py", "_compute_fast_alignment_job"): ["C10", "C05"],
     ("alignment.py", None): ["C03", "C10"],
-    ("alignment.py", "gamma_k_disorder"): ["C12"], ("alignment.py", "check"): ["C17"], ("alignment.py", "nb_units"): ["C12"],
+    ("alignment.py", "avg_num_annotations_per_annotator"): ["C03"], ("alignment.py", "disorder"): ["C03"], ("alignment.py", "gamma_k_disorder"): ["C12"], ("alignment.py", "check"): ["C17"], ("alignment.py", "nb_units"): ["C12"],
     ("sampler.py", None): ["C16", "C15", "C05"],
     ("cst.py", None): ["C19", "C14"],
     ("cli_apps.py", None): ["C20"],
